@@ -14,9 +14,9 @@ pub const PER_BATCH: u64 = 330;
 
 pub fn plan(tier: &str, seed: u64) -> Vec<Batch> {
     let n = match tier {
-        "thorough" => 120,
+        "thorough" => 400,
         "dev" => 1,
-        _ => 10,
+        _ => 40,
     };
     let mut v = Vec::new();
     for uni in [UniCfg::k(), UniCfg::e()] {
